@@ -10,6 +10,7 @@
 #include <primitives/block.h>
 #include <primitives/transaction.h>
 #include <logging.h>
+#include <kits/chainkit.h>
 
 // ------------------------------------------------------------------------------------------- (a) CCheckQueue
 namespace a {
@@ -142,6 +143,64 @@ static std::string Body(const Config& c)
 }
 } // namespace b
 
+
+// ------------------------------------------------------------------------------------------- (d) configuration sweep
+// Real ConnectBlock through ProcessNewBlock for every (script-check workers, prevout-fetch workers) configuration:
+// verdict, validation result category, tip and UTXO digest must equal the serial (0,0) configuration. Threads run
+// free here (OS scheduling): this part is exhaustive over *configurations*, not over schedules.
+namespace d {
+struct Obs { std::string s; };
+static std::string RunConfig(int workers, int fetchers, uint64_t& n_blocks)
+{
+    using namespace ck;
+    NodeOpts o;
+    o.worker_threads = workers;
+    o.prevoutfetch_threads = fetchers;
+    Node n(o);
+    RefLedger L;
+    L.AddGenesis(Params().GenesisBlock());
+    SetMockTime(Params().GenesisBlock().nTime + 600 * 100000);
+    MineEmpty(n, L, 112);
+    std::string obs;
+    auto coins_at = [&](const uint256& tip) {
+        std::vector<std::pair<COutPoint, RefCoin>> v;
+        auto u = L.UtxoAt(tip);
+        int h = L.Height(tip) + 1;
+        for (auto& [op, c] : *u) if (c.spk == OpTrueSpk() && (!c.coinbase || h - c.height >= 100)) v.push_back({op, c});
+        std::sort(v.begin(), v.end(), [](auto& a, auto& b) { return a.second.height != b.second.height ? a.second.height < b.second.height : a.first < b.first; });
+        return v;
+    };
+    // bad = index of the tx with the failing script (-1: none), ntx transactions with 1-3 inputs each
+    for (int bad = -1; bad < 4; bad++) {
+        uint256 tip = n.tip()->GetBlockHash();
+        auto coins = coins_at(tip);
+        std::vector<CTransactionRef> txs;
+        size_t ci = 0;
+        for (int t = 0; t < 4 && ci + 3 <= coins.size(); t++) {
+            std::vector<TxIn> ins;
+            CAmount total = 0;
+            int nin = 1 + t % 3;
+            for (int k = 0; k < nin; k++, ci++) { ins.push_back({coins[ci].first, 0xffffffff, !(t == bad && k == nin - 1)}); total += coins[ci].second.value; }
+            txs.push_back(MakeTransactionRef(MakeTx(ins, {{total - 1000, OpTrueSpk()}, {0, OpTrueSpk()}})));
+        }
+        BlockOpts bo;
+        bo.fees = 1000 * (CAmount)txs.size();
+        bo.extra_nonce = bad + 2;
+        CBlock b = MakeBlock(n, n.tip(), txs, bo);
+        BlockResult r = n.ProcessBlock(b);
+        n_blocks++;
+        bool active = n.tip()->GetBlockHash() == b.GetHash();
+        if (active) L.Add(b);
+        uint64_t dig = 0;
+        for (auto& [op, c] : n.UtxoByCursor()) { dig = dig * 1000003 + op.hash.GetUint64(0) + op.n; dig = dig * 31 + (uint64_t)c.out.nValue + c.nHeight * 2 + c.fCoinBase; }
+        obs += "bad=" + std::to_string(bad) + " valid=" + std::to_string(r.valid) + " result=" + std::to_string((int)r.result) + " active=" + std::to_string(active) + " utxo=" + std::to_string(dig) + "; ";
+        // the serial expectation, independent of any run: valid iff bad == -1
+        if ((bad == -1) != active) obs += "[UNEXPECTED verdict] ";
+    }
+    return obs;
+}
+} // namespace d
+
 int main(int argc, char** argv)
 {
     vx::init(argc, argv, "C14", "model_checking", 150, 1500);
@@ -153,6 +212,25 @@ int main(int argc, char** argv)
     int distinct = 0;
     bool complete = true, herr = false;
     std::string part = vx::ctx().args.empty() ? "" : vx::ctx().args[0];
+    // (d) first: it creates real worker threads, which must be gone before the fork-based schedule search starts
+    if (vx::ctx().replay.empty() && (part.empty() || part == "d")) {
+        vx::scratch_dir();
+        std::vector<int> ws = big ? std::vector<int>{0, 1, 2, 3, 4, 8, 16} : std::vector<int>{0, 1, 4};
+        std::vector<int> fs = big ? std::vector<int>{0, 1, 2, 4, 16} : std::vector<int>{0, 2};
+        uint64_t n_blocks = 0, n_cfg = 0;
+        std::string base = d::RunConfig(0, 0, n_blocks);
+        if (base.find("UNEXPECTED") != std::string::npos) vx::violation("C14d-serial-verdict", "serial configuration gives an unexpected verdict: " + base, base);
+        for (int w : ws) for (int f : fs) {
+            if (w == 0 && f == 0) continue;
+            if (vx::deadline_reached()) { complete = false; break; }
+            std::string got = d::RunConfig(w, f, n_blocks);
+            n_cfg++;
+            if (got != base) vx::violation("C14d-config-differs[workers=" + std::to_string(w) + ",fetchers=" + std::to_string(f) + "]", "observations differ from the serial run: serial {" + base + "} parallel {" + got + "}", "workers " + std::to_string(w) + " fetchers " + std::to_string(f));
+        }
+        E.set("sweep_configurations", n_cfg + 1);
+        E.set("sweep_blocks_connected", n_blocks);
+        E.sample("config sweep (free-running threads): blocks with the failing script in tx -1(none),0,1,2,3 under workers x fetchers; serial observations: " + base.substr(0, 200));
+    }
 
     // (a)
     std::vector<a::Config> ca;
